@@ -361,6 +361,40 @@ def shape_functions(tier, mapref=None):
              ("forvar", "mixed @F() { int i, n, e; e = %s; for (i = %s; i < e; i++) { n++; if (n == 12) { i++; break; } } return ({ n, i }); }" % (lit(R.I(end)), lit(R.I(start)))),
              ("while", "mixed @F() { int i, n; i = %s; while (i < %s) { n++; i = i + 1; if (n == 12) break; } return ({ n, i }); }" % (lit(R.I(start)), lit(R.I(end)))),
              ("mixedv", "mixed @F() { mixed i, n, e; n = 0; e = %s; for (i = %s; i < e; i++) { n++; if (n == 12) { i++; break; } } return ({ n, i }); }" % (lit(R.I(end)), lit(R.I(start))))])
+    # ---- loop conditions comparing an integer with a float (the fused loop-condition opcodes take local operands of any type)
+    import math
+    for fb in ("2.5", "0.5", "4.75", "3.0", "-1.5", "0.0"):
+        fv = float(fb)
+        up = max(0, math.ceil(fv))                            # number of i = 0, 1, ... with i < fv
+        down = len([i for i in range(5, -3, -1) if i > fv])   # i = 5, 4, ... with i > fv (stops at the first failure)
+        upeq = len([i for i in range(0, 9) if i <= fv])
+        sps = [("forlocal", "mixed @F() { int i, n; float f = %s; for (i = 0; i < f; i++) n++; return n; }" % fb),
+               ("whilelocal", "mixed @F() { int i, n; float f = %s; while (i < f) { n++; i++; } return n; }" % fb),
+               ("forconst", "mixed @F() { int i, n; for (i = 0; i < %s; i++) n++; return n; }" % fb),
+               ("forglobal", "mixed @F() { int i, n; g0 = %s; for (i = 0; i < g0; i++) n++; return n; }" % fb),
+               ("swapped", "mixed @F() { int i, n; float f = %s; for (i = 0; f > i; i++) n++; return n; }" % fb),
+               ("ifbreak", "mixed @F() { int i, n; float f = %s; while (1) { if (!(i < f)) break; n++; i++; } return n; }" % fb),
+               ("asvalue", "mixed @F() { int i, n, c; float f = %s; while (1) { c = (i < f); if (!c) break; n++; i++; } return n; }" % fb),
+               ("mixedvars", "mixed @F() { mixed i, n, f; i = 0; n = 0; f = %s; for (; i < f; i++) n++; return n; }" % fb),
+               ("argbound", "mixed @F_h(float f) { int i, n; for (i = 0; i < f; i++) n++; return n; } mixed @F() { return @F_h(%s); }" % fb)]
+        if up >= 1:
+            sps.append(("dolocal", "mixed @F() { int i, n; float f = %s; do { n++; i++; } while (i < f); return n; }" % fb))
+        grp(R.I(up), sps)
+        grp(R.I(down), [("forlocal", "mixed @F() { int i, n; float f = %s; for (i = 5; i > f; i--) n++; return n; }" % fb),
+                        ("whilelocal", "mixed @F() { int i, n; float f = %s; i = 5; while (i > f) { n++; i--; } return n; }" % fb),
+                        ("forconst", "mixed @F() { int i, n; for (i = 5; i > %s; i--) n++; return n; }" % fb),
+                        ("swapped", "mixed @F() { int i, n; float f = %s; for (i = 5; f < i; i--) n++; return n; }" % fb),
+                        ("forglobal", "mixed @F() { int i, n; g0 = %s; for (i = 5; i > g0; i--) n++; return n; }" % fb)])
+        grp(R.I(upeq), [("forlocal", "mixed @F() { int i, n; float f = %s; for (i = 0; i <= f; i++) n++; return n; }" % fb),
+                        ("whilelocal", "mixed @F() { int i, n; float f = %s; while (i <= f) { n++; i++; } return n; }" % fb),
+                        ("forconst", "mixed @F() { int i, n; for (i = 0; i <= %s; i++) n++; return n; }" % fb),
+                        ("swapped", "mixed @F() { int i, n; float f = %s; for (i = 0; f >= i; i++) n++; return n; }" % fb)])
+        # a float counter against an integer bound
+        cnt = len([k for k in range(0, 12) if fv + k < 3])
+        grp(R.I(cnt), [("forlocal", "mixed @F() { float x = %s; int n, e; e = 3; for (; x < e; x += 1.0) n++; return n; }" % fb),
+                       ("whilelocal", "mixed @F() { float x = %s; int n, e; e = 3; while (x < e) { n++; x = x + 1.0; } return n; }" % fb),
+                       ("forconst", "mixed @F() { float x = %s; int n; for (; x < 3; x += 1.0) n++; return n; }" % fb),
+                       ("swapped", "mixed @F() { float x = %s; int n, e; e = 3; for (; e > x; x += 1.0) n++; return n; }" % fb)])
     # ---- switch vs if-chain
     tables = {"dense64": [(1 << 32) + k for k in range(1, 7)], "densemin": [-(1 << 63) + k for k in range(0, 5)], "densemax": [(1 << 63) - 1 - k for k in range(4, -1, -1)],
               "dense": [1, 2, 3, 4, 5, 6], "sparse": [-100003, 0, 7, 100003, 1 << 33, -(1 << 40)], "two": [0, 1 << 32],
